@@ -87,6 +87,9 @@ pub mod figment;
 pub(crate) mod ring_reader;
 mod wrapping;
 mod zmij_format;
+
+#[cfg(feature = "verif_hooks")]
+pub mod verif_hooks;
 // ---------------- Serialization (public API) ----------------
 
 /// Serialize a value to a YAML `String`.
